@@ -20,7 +20,7 @@ import time
 from bsv import env
 
 VERIF = env.VERIF
-EVIDENCE_DIR = os.path.join(VERIF, "evidence")
+EVIDENCE_DIR = os.environ.get("BSV_EVIDENCE_DIR") or os.path.join(VERIF, "evidence")  # override: scratch runs against BSV_SRC
 REPLAY_DIR = os.path.join(VERIF, "replays")
 KNOWN = os.path.join(VERIF, "known_findings.json")
 
